@@ -152,6 +152,29 @@ def run(ck):
             ck.count("append_file:orig_empty" if k0 == 0 else "append_file")
         except Exception as e:
             ck.fail(f"append session raised {type(e).__name__}: {e}", dict(inp, original_points=k0))
+        # the same cloud written by a chunked session to a path that already holds a LONGER file: nothing of the old file is left behind
+        if ci % 10 == 3:
+            import os
+            import tempfile
+            ck.count("path_overwritten_by_a_shorter_file")
+            td = tempfile.mkdtemp(prefix="verif_c03_")
+            try:
+                pth = os.path.join(td, "tile.las")
+                with open(pth, "wb") as f_:
+                    f_.write(one.getvalue() + bytes(ck.rng.getrandbits(8) for _ in range(5000)))
+                with laspy.open(pth, mode="w", header=las.header) as w_:
+                    pos_ = 0
+                    for pp in c04.rand_partition(ck.rng, n):
+                        w_.write_points(las.points[pos_:pos_ + pp])
+                        pos_ += pp
+                with open(pth, "rb") as f_:
+                    got_ = f_.read()
+                check_file(ck, got_, las, arr, None, dict(inp, scenario="chunked session on a path that held a longer file"), "file written over a longer existing file")
+            except Exception as e:
+                ck.fail(f"writing over an existing file raised {type(e).__name__}: {e}", inp)
+            finally:
+                import shutil
+                shutil.rmtree(td, ignore_errors=True)
         # a header that described a file with EVLRs, reused for a file without them (the user dropped them, or copies the
         # points only): the new file's header must describe the new file
         if minor >= 4 and evlrs:
